@@ -71,6 +71,43 @@ def tcp_session(cls, segments, rec, keep=False, clock=None, gaps=None):
   return out
 
 
+def tcp_session_with_pause(cls, segments, rec, at):
+  """Like tcp_session, but the receivers are paused (flow control: cache or relay queues full) when the at-th datapoint of
+  the session is handed over, and resumed after the segment in which that happened.  Everything that had arrived must still
+  be delivered although nothing more is sent."""
+  from carbon import events
+  st = dict(n=0, paused=False)
+
+  def pauser(metric, datapoint):
+    st['n'] += 1
+    if st['n'] == at and not st['paused']:
+      st['paused'] = True
+      events.pauseReceivingMetrics()
+  events.metricReceived.addHandler(pauser)
+  p = cls()
+  t = StringTransport()
+  p.makeConnection(t)
+  rec.take()
+  exc = None
+  try:
+    for seg in segments:
+      if t.disconnecting:
+        break
+      p.dataReceived(seg)
+      if st['paused']:
+        events.resumeReceivingMetrics()
+        st['paused'] = False
+  except Exception as e:
+    exc = e
+  finally:
+    events.metricReceived.removeHandler(pauser)
+    if st['paused']:
+      events.resumeReceivingMetrics()
+  out = dict(got=rec.take(), exc=exc, exc_at=None, disconnecting=t.disconnecting, proto=p, transport=t, paused_at=at if st['n'] >= at else None)
+  close(p)
+  return out
+
+
 def close(p):
   try:
     p.connectionLost(Failure(ConnectionDone()))
